@@ -66,7 +66,10 @@ def run(ctx):
     try:
         _run(ctx)
     except histories.OpFailed as e:
-        ctx.violation('history-step-fails', 'a legal history step is refused by the implementation: %s' % e, {'op': list(map(str, e.op)), 'step': e.k}, repr(e.exc)[:300], 'the step succeeds')
+        sig = 'history-step-fails'
+        if e.op[0] == 'R' and 'brdf_incoming_directions' in repr(e.exc) and getattr(e, 'partial_walls', False):
+            sig = 'restore-fails:partially-set-walls'
+        ctx.violation(sig, 'a legal history step is refused by the implementation: %s' % e, {'op': list(map(str, e.op)), 'step': e.k}, repr(e.exc)[:300], 'the step succeeds')
 
 
 def _run(ctx):
@@ -100,7 +103,10 @@ def oracle(ctx, budget_s=60):
     try:
         _oracle(ctx, budget_s)
     except histories.OpFailed as e:
-        ctx.violation('history-step-fails', 'a legal history step is refused by the implementation: %s' % e, {'op': list(map(str, e.op)), 'step': e.k}, repr(e.exc)[:300], 'the step succeeds')
+        sig = 'history-step-fails'
+        if e.op[0] == 'R' and 'brdf_incoming_directions' in repr(e.exc) and getattr(e, 'partial_walls', False):
+            sig = 'restore-fails:partially-set-walls'
+        ctx.violation(sig, 'a legal history step is refused by the implementation: %s' % e, {'op': list(map(str, e.op)), 'step': e.k}, repr(e.exc)[:300], 'the step succeeds')
 
 
 def _oracle(ctx, budget_s=60):
